@@ -27,9 +27,14 @@ RECURSIVE StripEsc(_)
 StripEsc(ts) == IF Len(ts) < 2 THEN ts
                 ELSE IF ts[1] = <<"WORD", StrCps("ESCAPE")>> /\ ts[2][1] = "STR" /\ Len(ts[2][2]) = 1 THEN StripEsc(SubSeq(ts, 3, Len(ts)))
                 ELSE <<ts[1]>> \o StripEsc(Tail(ts))
+\* the escape characters named by ESCAPE clauses
+EscChars(ts) == { ts[i + 1][2] : i \in { j \in 1..(Len(ts) - 1) : ts[j] = <<"WORD", StrCps("ESCAPE")>> /\ ts[j + 1][1] = "STR" } }
 VerdictOf(c) ==
   LET t1 == SqlTokens(c.sql1)  t2 == SqlTokens(c.sql2) IN
-  IF t1 # t2 THEN (IF StripEsc(t1) = StripEsc(t2) THEN "escape-clause-only" ELSE "sql-differs")
+  \* "escape-clause-only": the two texts differ by the presence of ESCAPE clauses only, all naming ONE fixed character
+  \* (a clause whose character depends on the value is a value-dependent piece of SQL text like any other)
+  IF t1 # t2 THEN (IF StripEsc(t1) = StripEsc(t2) /\ (\A a, b \in EscChars(t1) \cup EscChars(t2) : a = b)
+                   THEN "escape-clause-only" ELSE "sql-differs")
   ELSE IF \E i \in 1..Len(c.marks1) : InText(t1, c.marks1[i]) THEN "value-in-text"
   ELSE IF \E i \in 1..Len(c.marks2) : InText(t2, c.marks2[i]) THEN "value-in-text"
   ELSE IF \E i \in 1..Len(c.needles1) : ~Bound(c.params1, c.needles1[i]) THEN "value-not-bound"
